@@ -284,7 +284,9 @@ func (s *Sys) runAction(ctx vivid.ActorContext, rec *actorRec, act []string) {
 		b, _ := proto.Atoi(act[1])
 		s.spawn(ctx, b)
 	case "kill":
-		ctx.Terminate(s.target(ctx, act[1]), act[2] == "g")
+		t := s.target(ctx, act[1])
+		s.events = append(s.events, "killreq:"+s.name(t))
+		ctx.Terminate(t, act[2] == "g")
 	case "watch":
 		if t := s.target(ctx, act[1]); t != nil && !t.Equal(ctx.Ref()) { // scripted actors never watch themselves
 			s.events = append(s.events, fmt.Sprintf("watch:%d:%s", rec.aid, s.name(t)))
